@@ -158,6 +158,7 @@ def ensure_build(verbose=False):
 # ----------------------------------------------------------------------------
 # model execution
 # ----------------------------------------------------------------------------
+MAX_REPLAY_FILES = 200
 MODEL_TIMEOUT = 1500  # seconds per driver process; the extracted model is total, so this only bounds blow-ups of generated sizes
 
 
@@ -433,8 +434,11 @@ class Check:
         path = os.path.join(ROOT, "out", "replay", f"{self.pid}_{self.tier}_{n}.json")
         obj = {"property": self.pid, "what": what, "seed": self.seed, "tier": self.tier,
                "found_failing_input": found_input, "replay": replay_obj}
-        with open(path, "w") as f:
-            json.dump(obj, f, indent=1, default=repr)
+        if n < MAX_REPLAY_FILES:
+            with open(path, "w") as f:
+                json.dump(obj, f, indent=1, default=repr)
+        else:  # (counted, but not every one of thousands of failing inputs is kept as a file)
+            path = self.violations[MAX_REPLAY_FILES - 1][0]
         self.violations.append((path, found_input, what))
         if found_input:
             self._print_violation(path, True, what)
